@@ -64,6 +64,21 @@ static void oom_gen(Rng &r, Plan &p, Tier tier, uint64_t index)
 		s.set("multi", tmpl == 0 ? (int64_t)r.below(3) : 0); // extra keys in a JWKS document
 		push(s);
 	}
+	if (tmpl == 0 && r.chance(1, 2)) {
+		// a second document loaded into the set that already holds keys: they must survive a failed load
+		Step s("LOADKEY");
+		s.set("slot", 0);
+		s.set("into", 1);
+		s.set("kind", (int64_t)r.pick(std::vector<int>{0, 1, 2}));
+		s.set("sub", (int64_t)r.below(4));
+		s.set("priv", (int64_t)r.below(2));
+		s.set("attr", (int64_t)r.below(2));
+		s.set("kid", (int64_t)r.below(3));
+		s.set("via", (int64_t)r.pick(std::vector<int>{1, 2, 3, 4}));
+		s.set("bad", r.chance(1, 4) ? 1 : 0);
+		s.set("multi", (int64_t)r.below(3));
+		push(s);
+	}
 	if (tmpl == 0) {
 		int n = (int)r.range(1, 4);
 		for (int i = 0; i < n; i++) {
@@ -217,7 +232,8 @@ static void prepare_keys(const Plan &plan, std::map<int, KeySlot> &keys, std::ma
 			doc = json_text(j);
 		json_decref(j);
 		ks.jwk = doc;
-		keys[(int)s.I("slot")] = ks;
+		if (!s.I("into"))
+			keys[(int)s.I("slot")] = ks;
 		docs[s.uid] = doc;
 	}
 }
@@ -339,6 +355,7 @@ static OpRes run_op(Scenario &sc, OomState &st, const Step &s, int64_t fail_at, 
 		const std::string &doc = sc.docs[s.uid];
 		int via = (int)s.I("via") % 5;
 		jwk_set_t *set = NULL;
+		jwk_set_t *into = s.I("into") ? st.sets[slot] : NULL;
 		StreamState ss;
 		FILE *f = NULL;
 		std::string path;
@@ -358,19 +375,19 @@ static OpRes run_op(Scenario &sc, OomState &st, const Step &s, int64_t fail_at, 
 			Armed a(fail_at, fail_from);
 			switch (via) {
 			case 0:
-				set = jwks_create(doc.c_str());
+				set = into ? jwks_load(into, doc.c_str()) : jwks_create(doc.c_str());
 				break;
 			case 1:
-				set = jwks_load(NULL, doc.c_str());
+				set = jwks_load(into, doc.c_str());
 				break;
 			case 2:
-				set = jwks_create_strn(doc.data(), doc.size());
+				set = into ? jwks_load_strn(into, doc.data(), doc.size()) : jwks_create_strn(doc.data(), doc.size());
 				break;
 			case 3:
-				set = jwks_create_fromfp(f);
+				set = into ? jwks_load_fromfp(into, f) : jwks_create_fromfp(f);
 				break;
 			default:
-				set = jwks_create_fromfile(path.c_str());
+				set = into ? jwks_load_fromfile(into, path.c_str()) : jwks_create_fromfile(path.c_str());
 			}
 			r.reqs = a.reqs();
 			r.fired = a.fired() > 0;
@@ -379,12 +396,19 @@ static OpRes run_op(Scenario &sc, OomState &st, const Step &s, int64_t fail_at, 
 			fclose(f);
 		if (!path.empty())
 			unlink(path.c_str());
-		if (st.sets[slot]) {
-			Armed a;
-			jwks_free(st.sets[slot]);
+		if (into) {
+			// the loaders return the set they were given; anything else would orphan it
+			if (set != into)
+				r.res = "returned-other-set ";
+			set = into;
+		} else {
+			if (st.sets[slot]) {
+				Armed a;
+				jwks_free(st.sets[slot]);
+			}
+			st.sets[slot] = set;
 		}
-		st.sets[slot] = set;
-		r.res = describe_set(set, r.failmeasure);
+		r.res += describe_set(set, r.failmeasure);
 	} else if (op == "RING") {
 		int slot = (int)s.I("slot") % 3;
 		jwk_set_t *set = st.sets[slot];
@@ -405,7 +429,17 @@ static OpRes run_op(Scenario &sc, OomState &st, const Step &s, int64_t fail_at, 
 			case 2: {
 				// metadata of an item flagged as bad is not part of the observable result
 				const jwk_item_t *f = jwks_find_bykid(set, "k1");
-				ret = f != NULL && !jwks_item_error(f);
+				ret = 0;
+				if (f && !jwks_item_error(f))
+					ret = 1;
+				else if (f) {
+					// a flagged item shadows the lookup: whether its kid was recorded is not observable state
+					for (size_t q = 0; q < jwks_item_count(set); q++) {
+						const jwk_item_t *it = jwks_item_get(set, q);
+						if (it && !jwks_item_error(it) && jwks_item_kid(it) && !strcmp(jwks_item_kid(it), "k1"))
+							ret = 1;
+					}
+				}
 				break;
 			}
 			case 3:
